@@ -94,11 +94,12 @@ STREAM_CONFIGS = [
                        MaxStream=3), 't'),
 ]
 # deliberately wrong variants of L and the H formula each must violate
-MUTATIONS = [('shared_resolver_stack', 'H_Globals'), ('keep_serialized', 'H_Documents'), ('keep_anchors', 'H_Documents'), ('th_in_place', 'H_Globals'), ('th_update_only', 'H_Documents'),
+MUTATIONS = [('close_on_represent_error', 'H_FaultTransparency'), ('marks_on_nodes', 'H_CallerObjects'),
+             ('shared_resolver_stack', 'H_Globals'), ('keep_serialized', 'H_Documents'), ('keep_anchors', 'H_Documents'), ('th_in_place', 'H_Globals'), ('th_update_only', 'H_Documents'),
              ('keep_anchor_id', 'H_Documents'), ('keep_tag_prefixes', 'H_Documents'),
              ('dispose_raises', 'H_FaultTransparency'), ('wrap_write_error', 'H_FaultTransparency')]
 SENS = cfg(LoadOps=['load_all'], DumpOps=['dump_all', 'serialize_all', 'emit'], Classes=['user'], IOs=['file'],
-           Docs=['plain', 'tagdir', 'usetag', 'anchors', 'usealias'], Vals=['plainv', 'shared2', 'tagged', 'usesve'], MaxHist=1,
+           Docs=['plain', 'tagdir', 'usetag', 'anchors', 'usealias'], Vals=['plainv', 'shared2', 'tagged', 'usesve', 'scalarv', 'urepr'], MaxHist=1,
            MaxStream=2, Faults=True, KeepHist=False)     # Classes user: path resolvers registered
 MICRO_ACTIONS = ['CreateLoader', 'CreateDumper', 'Read', 'ProcessDirectives', 'ImplicitDocumentStart', 'DocumentBoundary',
                  'ParseComposeNode', 'ComposeDocumentReset', 'ConstructObject', 'DrainStateGenerators',
